@@ -224,7 +224,17 @@ def _eval(
                 "Already in dds.eval() context. Nested eval contexts are not supported",
                 DDSErrorCode.EVAL_IN_EVAL,
             )
-        key = None if path is None else _eval_ctx.requested_paths[path]
+        if path not in _eval_ctx.requested_paths:
+            # The keep was not seen when the code was analysed: the code that contains it is not tracked.
+            fun_module = getattr(fun, "__module__", None)
+            raise DDSException(
+                f"The function {fun} of module '{fun_module}' is kept under the path {path} during an evaluation, "
+                f"but this call was not found when the code was analysed. The typical cause is that the "
+                f"module '{fun_module}' has not been accepted for use by DDS: use the function "
+                f"'dds.accept_module' to accept '{fun_module}' or one of its parent packages.",
+                DDSErrorCode.MODULE_NOT_FOUND,
+            )
+        key = _eval_ctx.requested_paths[path]
         t = _time()
         if key is not None and _store().has_blob(key):
             _logger.debug(f"_eval:Return cached {path} from {key}")
